@@ -1007,6 +1007,7 @@ func (w *world) finalChecks() {
 			}
 			if stuck {
 				w.addViolation("C12", "resource-stuck-resetting", fmt.Sprintf("cached resource %s is still marked as being re-fetched although every request has been answered", w.absSubject(e.Name)))
+				w.addViolation("C15", "resource-stuck-resetting", fmt.Sprintf("cached resource %s is still marked as being re-fetched although every request has been answered: a discarded answer must leave the resource working", w.absSubject(e.Name)))
 				if w.cfg.resetThrottle > 0 {
 					w.addViolation("C19", "refetch-never-started", fmt.Sprintf("the reset re-fetch of %s never happened although every request has been answered (throttle slot never handed on)", w.absSubject(e.Name)))
 				}
